@@ -20,7 +20,11 @@ RULE = (
     "injected element (all violations reported together), identically for every type ordering; "
     "histories of register_resolver / register_default_resolver / register_subscription with bad and "
     "good signatures interleaved with validate() must agree with a fresh validate_schema() at every "
-    "step. Non-trivial = distinct schema with >= 1 interface or injected violation, or a history of "
+    "step. "
+    "Further operators: non-ASCII letters / digits in names, ObjectType(default_resolver=...) "
+    "that does not fit, arguments merely called args / kwargs (benign); every verdict is compared "
+    "with the verdict on schema.clone().  "
+    "Non-trivial = distinct schema with >= 1 interface or injected violation, or a history of "
     ">= 2 validate calls."
 )
 ASSUMPTIONS = ["an injected violation counts as reported when some error message contains the unique name of the injected element"]
